@@ -370,6 +370,13 @@ impl Response {
                         /* capacity for a single line */
                         "data: ".len() + chunk.len() + "\n\n".len()
                     );
+                    /* CR and CRLF are line breaks for event-stream parsers, too: a raw `\r` in a message
+                       would end the `data` line there and let the rest be read as another field */
+                    let chunk = if chunk.contains('\r') {
+                        chunk.replace("\r\n", "\n").replace('\r', "\n")
+                    } else {
+                        chunk
+                    };
                     for line in chunk.split('\n') {
                         message.extend_from_slice(b"data: ");
                         message.extend_from_slice(line.as_bytes());
